@@ -257,7 +257,8 @@ func C13(c *core.Ctx) {
 			if fn == nil {
 				continue
 			}
-			core.Instrs(fn, func(in ssa.Instruction) {
+			// (the loop may sit in a helper the two share: then they agree by construction)
+			core.InstrsDeep(fn, func(in ssa.Instruction) {
 				iff, ok := in.(*ssa.If)
 				if !ok || !core.InLoop(iff.Block()) {
 					return
